@@ -243,9 +243,9 @@ func run(tier string, shard, nsh int, res *ev.Result) {
 				jobs = append(jobs, job{[]string{f.Name, g.Name}, pipe, cuts})
 			}
 		}
-		small := []string{"fc3", "fc5", "fc16", "fc17", "fc23", "unsupported-fc", "qty-out-of-range", "bytecount-inconsistent"}
+		small := []string{"fc3", "fc5", "fc16", "fc17", "fc23", "unsupported-fc", "qty-out-of-range", "bytecount-inconsistent", "fc3-refused"}
 		if !thorough {
-			small = []string{"fc3", "fc16", "fc17", "unsupported-fc"}
+			small = []string{"fc3", "fc16", "fc17", "unsupported-fc", "fc3-refused"}
 		}
 		for _, a := range small {
 			for _, b := range small {
@@ -253,6 +253,29 @@ func run(tier string, shard, nsh int, res *ev.Result) {
 					jobs = append(jobs, job{[]string{a, b, c}, pipe, 2})
 				}
 			}
+		}
+		// bursts sized by what they make the server BUFFER or SEND, not by their number of frames: k requests with the
+		// largest reply (259 bytes each), alone and surrounded by small ones; k requests of the largest size (259 bytes each)
+		big := func(name string, k int) []string {
+			var out []string
+			for i := 0; i < k; i++ {
+				out = append(out, name)
+			}
+			return out
+		}
+		for k := 3; k <= 6; k++ {
+			for _, name := range []string{"fc3-max", "fc16-max"} {
+				if k > 4 && !thorough && name == "fc16-max" {
+					continue
+				}
+				jobs = append(jobs, job{big(name, k), pipe, 1})
+			}
+		}
+		for _, x := range []string{"fc3", "fc16", "unsupported-fc", "fc3-refused"} {
+			jobs = append(jobs, job{append(big("fc3-max", 2), x), pipe, 1})
+			jobs = append(jobs, job{append([]string{x}, big("fc3-max", 2)...), pipe, 1})
+			jobs = append(jobs, job{append(append([]string{x}, big("fc3-max", 2)...), x), pipe, 1})
+			jobs = append(jobs, job{append(big("fc16-max", 2), x), pipe, 1})
 		}
 	}
 	var mu sync.Mutex
